@@ -138,19 +138,13 @@ func constOf(pkg, name string) string {
 	return ""
 }
 
-// wantedConsts lists (package dir, constant, Lean name). Extend freely; a
-// missing constant is a hard error (the source shape changed).
-var wantedConsts = [][3]string{
-	{"muxer", "SegmentMaxPayloadLength", "segmentMaxPayloadLength"},
-	{"muxer", "segmentProtocolIdResponseFlag", "segmentProtocolIdResponseFlag"},
-	{"protocol", "maxMessagesPerSegment", "maxMessagesPerSegment"},
-	{"protocol", "maxReadBufferSize", "maxReadBufferSize"},
-}
-
-func genConsts() {
-	l := newLean("Limits")
-	l.pf("namespace GV.Gen.Limits\n")
-	for _, w := range wantedConsts {
+// emitConsts writes a Lean file `name` with namespace GV.Gen.<name> holding
+// the listed (package dir, Go constant, Lean name) constants. A missing
+// constant is a hard error (the source shape changed).
+func emitConsts(name string, wanted [][3]string) {
+	l := newLean(name)
+	l.pf("namespace GV.Gen.%s\n", name)
+	for _, w := range wanted {
 		v := constOf(w[0], w[1])
 		if v[0] == '"' {
 			l.pf("def %s : String := %s -- %s.%s\n", w[2], v, w[0], w[1])
@@ -162,5 +156,5 @@ func genConsts() {
 			l.pf("def %s : Nat := %s -- %s.%s\n", w[2], v, w[0], w[1])
 		}
 	}
-	l.pf("end GV.Gen.Limits\n")
+	l.pf("end GV.Gen.%s\n", name)
 }
